@@ -135,7 +135,7 @@ def run(rep: Report, tier: str) -> None:
                 for s in subterms(guard):
                     if s[0] == "cmp" and s[1] == "<" and s[2][0] == "fld" and s[2][2] == fld and s[3] == ("const", 0):
                         neg = True
-            rep.check(neg, r, ci.module, "Generic.__init__", "generic: negative period rejected", "no raise guarded by '<period field> < 0' in Generic.__init__: a negative period would be accepted", loc(ci.node))
+            rep.check(neg, r, ci.module, "Generic.__init__", "generic: negative period rejected", "no raise guarded by '<period field> < 0' in Generic.__init__: a negative period would be accepted", loc(ci.node), also=((f.module, f.qualname),))
         else:
             rep.check(val == ("const", spec), r, f.module, f.qualname, f"{ci.name}: period == {spec}", f"{ci.name}.get_long_term_capital_gain_period() folds to {show(val)}; the statement says {spec} days", loc(f.node), detail=show(val))
 
